@@ -357,6 +357,9 @@ def iterative(prog: Program, rep) -> None:
                    and U(s.stmt.value.body) == "self.mat.T" and U(s.stmt.value.orelse) == "self.mat"]
             raw = call.args[0]
             ok2 = bool(sel) and isinstance(raw, ast.Name) and any(isinstance(t, ast.Name) and t.id == raw.id for s in sel for t in s.stmt.targets)
+            if not ok2 and isinstance(a[0], ast.IfExp):
+                # through copies / a helper record: the argument still resolves to the very selection `self.mat.T if trans else self.mat`
+                ok2 = U(a[0].test) == "trans" and U(a[0].body) == "self.mat.T" and U(a[0].orelse) == "self.mat"
             if not ok2:
                 # if/else form
                 ok2 = ok and any(("truthy", "trans", None) in s.facts for s in ff.order if isinstance(s.stmt, ast.Assign) and U(s.stmt.value) == "self.mat.T")
